@@ -103,6 +103,21 @@ pub fn inline_lattice<S: USet>(e: &mut Eng<S>) {
                     }
                 }
             }
+            // the lattice set as the RIGHT operand of the difference operators (membership tests against an
+            // inline set whose later members exceed the first field's width), and as both operands of a union
+            if code % 3 == 2 || n <= 2 {
+                let mut sup = members.clone();
+                sup.push(S::norm(members[members.len() - 1].wrapping_add(5)));
+                sup.push(S::norm(3));
+                e.op_collect(3, &sup);
+                e.op_binop(4, 3, 0, false, false);
+                e.op_binop(5, 3, 0, false, true);
+                e.op_binop(6, 0, 1, true, false);
+                e.op_drop(3);
+                e.op_drop(4);
+                e.op_drop(5);
+                e.op_drop(6);
+            }
             e.op_drop(0);
             e.op_drop(1);
         }
